@@ -5,6 +5,7 @@
 set -u
 patch="$1"; prop="$2"; shift 2
 R="${MUT_REPO:-/repo}"; export PETL_REPO="$R"
+export VERIF_EVIDENCE_DIR=/tmp/pv_seeded_evidence   # never overwrite the real evidence with a run on a broken tree
 cd "$R" || exit 9
 if [ -n "$(git status --porcelain --untracked-files=no)" ]; then echo "repo not clean"; exit 9; fi
 git apply "$patch" || { echo "patch does not apply"; exit 9; }
